@@ -96,10 +96,11 @@ theorem reseed_forgets (s₁ s₂ : RngState) (seed : UInt64) (calls : List Call
 theorem all_state_thread_local : rngInventory.all VarInfo.threadSafe = true := by decide
 
 /-- every thread-local variable is accounted for (allow-list keyed by name AND function): it is part of the modelled state,
-    which `cmb_random_initialize` overwrites in full and `reseed_forgets` speaks about; or a function-static memo only
+    which `cmb_random_initialize` overwrites in full, which `reseed_forgets` speaks about and which NO function other than the
+    translated ones reads or writes (so every sampler reaches the generator only through `cmb_random_sfc64`); or a function-static memo only
     touched by its own function (argued in Rng/Inventory.lean, proved pure in §4); or foreign and unused -/
 theorem thread_locals_classified :
-    rngInventory.all (VarInfo.reseedOk rngStateVars rngSeedWrittenVars rngMemoVars) = true := by decide
+    rngInventory.all (VarInfo.reseedOk rngStateVars rngSeedWrittenVars rngMemoVars rngTranslated) = true := by decide
 
 /-- the state record of the model covers exactly inventory entries (no field invented by the translator) -/
 theorem state_vars_in_inventory : rngStateVars.all (fun k => rngInventory.any (fun v => v.key == k)) = true := by decide
